@@ -28,7 +28,7 @@ ASSUMPTIONS = [
     "window 0 / negative / non-integer windows are outside the quantifier (1 <= w) and not driven",
 ]
 REQUIRED = {"all": ["w_eq_1", "w_eq_N", "w_gt_N_rejected", "even_windows", "odd_windows", "delta_link_checked",
-                    "user_groups", "default_groups", "invalid_group_rejected", "histidine_windows", "default_window_calls", "numpy_int_windows", "windows_ge_128_sequences", "empty_user_groups", "repeated_user_groups"]}
+                    "user_groups", "default_groups", "invalid_group_rejected", "histidine_windows", "default_window_calls", "numpy_int_windows", "windows_ge_128_sequences", "empty_user_groups", "repeated_user_groups", "more_than_1000_windows"]}
 LP = {"quick": 7, "thorough": 8}
 NRANDOM = {"quick": 500, "thorough": 3000}
 DEFAULT_GROUPS = ["ED", "RK", "RKED", "QNSTGHC", "ALMIV", "FYW", "P"]
@@ -41,6 +41,8 @@ def cases(tier, seed):
     rng = gen.sub_rng(seed, ID)
     for s in ["K" * 300, "R" * 140 + "G" * 20 + "K" * 150, "E" * 260, ("KKKKKKKKKG" * 31), ("KRKRKRE" * 45)][:3 if tier == "quick" else 5]:
         yield {"k": "long", "s": s, "o": rng.randrange(1 << 30)}
+    # more than a thousand windows per profile
+    yield {"k": "verylong", "s": gen.rand_seq(rng, "uniform", lo=1500, hi=1500)[:1500], "o": rng.randrange(1 << 30)}
     for i in range(NRANDOM[tier]):
         hi = 40 if tier == "quick" else (150 if i % 4 == 0 else 40)
         yield {"k": "seq", "s": gen.rand_seq(rng, hi=hi), "o": rng.randrange(1 << 30)}
@@ -104,7 +106,10 @@ def judge(case, rep, S):
         seq = case["s"]
         rng = gen.sub_rng(case["o"], ID)
         N = len(seq)
-        if case["k"] == "long":
+        if case["k"] == "verylong":
+            rep.cnt("more_than_1000_windows")
+            windows = [5, 6, N - 1000, N]
+        elif case["k"] == "long":
             rep.cnt("windows_ge_128_sequences")
             windows = sorted(set([127, 128, 129, 150, 200, 255, 256, 257, N - 1, N, N + 1]))
             windows = [w for w in windows if w <= N + 1]
@@ -160,7 +165,8 @@ def judge(case, rep, S):
                 else:
                     rep.viol("long_window_answered:" + name, "%s(%d) on %s (N=%d) answered %r instead of rejecting" % (
                         name, w, seq, N, S["np"].asarray(r).tolist()), sig={"fn": name, "excess": w - N})
-            for grps in (None, [["K", "R"], ["E"]]):
+            absent = [a for a in M.AA if a not in seq][:3]
+            for grps in (None, [["K", "R"], ["E"]], [[a] for a in absent] if absent else [["W"]]):
                 try:
                     r = obj.get_linear_sequence_composition(w) if grps is None else obj.get_linear_sequence_composition(w, grps)
                 except Exception:
